@@ -24,7 +24,7 @@ func (eng *Engine) newUnit(fn *ssa.Function, con *Contract, pass1 bool, loopMods
 		s.assume(f)
 	}
 	u := &Unit{eng: eng, s: s, ty: newTypes(s), top: fn, con: con, heapSort: map[string]Sort{}, notes: map[string]bool{}, siteN: map[string]int{},
-		closures: map[Term]*ssa.MakeClosure{}, ranges: map[ssa.Value]*rangeState{}, pass1: pass1, loopMods: loopMods, refBirth: map[Term]map[string]bool{}}
+		closures: map[Term]*ssa.MakeClosure{}, ranges: map[ssa.Value]*rangeState{}, pass1: pass1, loopMods: loopMods, refBirth: map[Term]map[string]bool{}, prefixDone: map[string]bool{}, refHeaps: map[string]bool{}}
 	if u.loopMods == nil {
 		u.loopMods = map[string]map[string]*modRec{}
 	}
@@ -191,14 +191,14 @@ func (u *Unit) evalSpecBool(expr string, st *State, fn *ssa.Function, l *loopInf
 		}
 		return "true"
 	}
-	pkg := fn.Pkg.Pkg
+	pkg := fnPkg(fn)
 	env := u.newEnv(st, u.entry, fn, pkg)
 	env.loop = l
 	return env.evalBool(expr)
 }
 
 func (u *Unit) evalSpecInt(expr string, st *State, fn *ssa.Function, l *loopInfo) Term {
-	env := u.newEnv(st, u.entry, fn, fn.Pkg.Pkg)
+	env := u.newEnv(st, u.entry, fn, fnPkg(fn))
 	env.loop = l
 	return env.eval(parseSpecExpr(expr)).T
 }
